@@ -22,9 +22,12 @@
 //!               from wall-clock readings taken by the harness before/after the calls
 //!               (definitely-live / definitely-expired / ambiguous = don't-care).
 //!  coord      : sequential programs through the real `DistributedTxCoordinator` (begin,
-//!               handle_prepare + record_vote, commit, abort, complete_abort, cleanup_timeouts); after
-//!               every completion (commit / abort / timeout) the transaction must hold no lock and be
-//!               absent from the coordinator's wait-for graph.
+//!               handle_prepare + record_vote, commit, abort, complete_abort, cleanup_timeouts with
+//!               three timeout regimes, release_orphaned_locks with planted orphans). A reference
+//!               table key -> grantee judges every vote (held key => conflict naming a holder) and
+//!               every key's holder after every step; after every completion (commit / abort /
+//!               timeout) the transaction must hold no lock and be absent, as waiter and as holder,
+//!               from the coordinator's wait-for graph.
 //!  threads    : 2–6 OS threads run transaction life cycles over 4–8 keys on one LockManager (+ one
 //!               WaitForGraph), long timeouts; a shadow owner table is written *after* a grant and
 //!               cleared *before* a release, so a shadow overlap implies a real overlap. A sweeper
@@ -32,6 +35,12 @@
 //!               abandoned transactions (expiry + take-over races); there a shadow overlap only
 //!               counts if the harness' own clock readings prove the earlier holder unexpired.
 //!               Runnable alone with `--part threads` (TSan leg).
+//!  witness    : (`--part witness` only) the two minimal programs behind the findings of this check.
+//!
+//! Violations of a class the reference model can account for exactly (a stale reverse-index entry
+//! after an expired lock was taken over; an aborted / timed-out transaction left as waiter in the
+//! coordinator's graph) are reported once per case at its end and the program continues, so that a
+//! known defect does not hide what lies behind it. Every other violation ends its case.
 
 use common::*;
 use parking_lot::Mutex;
@@ -347,11 +356,11 @@ fn pairs4() -> Vec<(usize, usize)> {
     v
 }
 
-fn graph4_case(mask: u64, case_seed: u64, r: &mut Report) -> bool {
+fn graph4_case(mask: u64, case_seed: u64, reps: usize, r: &mut Report) -> bool {
     let mut rng = Rng::new(case_seed ^ mask.wrapping_mul(0x9E37_79B9));
     let pairs = pairs4();
-    for rep in 0..3 {
-        let labels: Vec<u64> = match rep {
+    for rep in 0..reps {
+        let labels: Vec<u64> = match rep % 3 {
             0 => vec![1, 2, 3, 4],
             1 => {
                 let mut s = BTreeSet::new();
@@ -1144,7 +1153,15 @@ fn locks_seq_inner(case_seed: u64, r: &mut Report) -> Result<(u64, bool), Fail> 
     if r.want_sample() && saw_conflict && w.trace.len() >= 10 {
         r.sample(json!({"part": "locks-seq", "timeout_ms": t_ms, "tracked_mode": w.tracked_mode, "program": w.trace.iter().take(16).collect::<Vec<_>>()}));
     }
-    Ok((hash_str(&w.trace.join(";")), saw_conflict))
+    // lock handles come from a process-wide counter: name them by order of appearance so that the
+    // same program hashes the same in every run
+    let mut all_handles: Vec<u64> = w.handles.values().flatten().copied().collect();
+    all_handles.sort();
+    let mut shape = w.trace.join(";");
+    for (i, h) in all_handles.iter().enumerate().rev() {
+        shape = shape.replace(&format!("Ok({})", h), &format!("Ok(#{})", i)).replace(&format!("(h{})", h), &format!("(h#{})", i));
+    }
+    Ok((hash_str(&shape), saw_conflict))
 }
 
 fn locks_seq_case(case_seed: u64, r: &mut Report) -> bool {
@@ -1878,7 +1895,7 @@ fn main() {
         };
         for _ in 0..tries {
             let ok = match rp["part"].as_str().unwrap_or("") {
-                "graph4" => graph4_case(rp["mask"].as_u64().unwrap_or(0), s, &mut total),
+                "graph4" => graph4_case(rp["mask"].as_u64().unwrap_or(0), s, 9, &mut total),
                 "graphN" => graph_n_case(s, &mut total),
                 "graph-prog" => graph_prog_case(s, &mut total),
                 "locks-seq" => locks_seq_case(s, &mut total),
@@ -1889,7 +1906,7 @@ fn main() {
                     true
                 }
             };
-            if !ok {
+            if !ok || total.violations_total > 0 {
                 break;
             }
         }
@@ -1899,8 +1916,9 @@ fn main() {
             witnesses(&mut total);
         }
         if want("graph4") {
+            let reps = args.by_tier(3usize, 12usize);
             let rep = par_cases(th, args.seed, 4096, args.budget(300, 1200), |i, s, r| {
-                graph4_case(i, s, r);
+                graph4_case(i, s, reps, r);
             });
             exhaustive = rep.counters.get("budget_stops").copied().unwrap_or(0) == 0 && rep.counters.get("graph4_graphs").copied().unwrap_or(0) == 4096;
             total.count("graph4_complete", exhaustive as u64);
@@ -1908,28 +1926,28 @@ fn main() {
         }
         if want("graphN") {
             let n = args.by_tier(12_000u64, 400_000u64);
-            let rep = par_cases(th, args.seed ^ 0x11, n, args.budget(120, 900), |_i, s, r| {
+            let rep = par_cases(th, args.seed ^ 0x11, n, args.budget(120, 300), |_i, s, r| {
                 graph_n_case(s, r);
             });
             total.merge(rep);
         }
         if want("graph-prog") {
             let n = args.by_tier(2_500u64, 80_000u64);
-            let rep = par_cases(th, args.seed ^ 0x22, n, args.budget(120, 900), |_i, s, r| {
+            let rep = par_cases(th, args.seed ^ 0x22, n, args.budget(120, 200), |_i, s, r| {
                 graph_prog_case(s, r);
             });
             total.merge(rep);
         }
         if want("locks-seq") {
             let n = args.by_tier(12_000u64, 400_000u64);
-            let rep = par_cases(th, args.seed ^ 0x33, n, args.budget(150, 1200), |_i, s, r| {
+            let rep = par_cases(th, args.seed ^ 0x33, n, args.budget(150, 420), |_i, s, r| {
                 locks_seq_case(s, r);
             });
             total.merge(rep);
         }
         if want("coord") {
             let n = args.by_tier(4_000u64, 120_000u64);
-            let rep = par_cases(th, args.seed ^ 0x44, n, args.budget(120, 900), |_i, s, r| {
+            let rep = par_cases(th, args.seed ^ 0x44, n, args.budget(120, 240), |_i, s, r| {
                 coord_case(s, r);
             });
             total.merge(rep);
@@ -1937,8 +1955,8 @@ fn main() {
         if want("threads") {
             // every case spawns 3-7 OS threads of its own
             let outer = (th / 3).max(1);
-            let n = args.by_tier(500u64, 12_000u64);
-            let rep = par_cases(outer, args.seed ^ 0x55, n, args.budget(150, 1200), |_i, s, r| {
+            let n = args.by_tier(360u64, 12_000u64);
+            let rep = par_cases(outer, args.seed ^ 0x55, n, args.budget(150, 420), |_i, s, r| {
                 threads_case(s, r);
             });
             total.merge(rep);
@@ -1974,21 +1992,21 @@ fn main() {
             floors.push(("coord_completions[abort]", 300));
         }
         if want("threads") {
-            floors.push(("thread_cases", 40));
-            floors.push(("thread_grants", 2_000));
-            floors.push(("thread_refusals", 500));
+            floors.push(("thread_cases", 10));
+            floors.push(("thread_grants", 1_000));
+            floors.push(("thread_refusals", 200));
         }
     }
     let meta = Meta {
         property: "C12",
-        rule: "graph cases are distinct by edge set (non-trivial: >= 1 edge for the exhaustive 4-transaction family, >= 2 edges otherwise); lock / coordinator programs are distinct by the hash of their executed call trace and non-trivial if at least one request was refused because of a held key; threaded cases are distinct by the hash of the global event order (thread, call kind, granted?) and non-trivial if at least one request was refused. graph4 is exhaustive: all 4 096 digraphs on 4 transactions x 3 labelings x (1 bare WaitForGraph + 5 detector configurations).",
+        rule: "graph cases are distinct by edge set (non-trivial: >= 1 edge for the exhaustive 4-transaction family, >= 2 edges otherwise); lock / coordinator programs are distinct by the hash of their executed call trace and non-trivial if at least one request was refused because of a held key; threaded cases are distinct by the hash of the global event order (thread, call kind, granted?) and non-trivial if at least one request was refused. graph4 is exhaustive: all 4 096 digraphs on 4 transactions x 3 (thorough: 12) labelings/insertion orders x (1 bare WaitForGraph + 5 detector configurations).",
         assumptions: vec![
             "the recorded wait-for relation is the set of add_wait calls made minus those removed; self-waits are not recorded (add_wait documents them as invalid)".into(),
             "'reports a cycle exactly when' is judged as existence (some cycle reported <=> the reference finds a non-trivial SCC); every reported cycle must be a simple cycle of recorded edges and the victim one of its members; max_cycle_length is set to 64 (> 8)".into(),
             "would_create_cycle(w,h) is judged for w != h only: true <=> a path h ->* w is recorded".into(),
             "a lock's expiry status is derived from the harness' own wall-clock readings before/after each call; anything inside the uncertainty window is not judged (counter ambiguous_expiry_windows_skipped)".into(),
             "a refused try_lock_with_wait_tracking must leave requester -> holder in the wait-for graph for every definitely-live holder (this is what makes 'deadlocks detected' meaningful; documented on the method)".into(),
-            "a transaction ends the way the repo ends one: release(tx), or release_by_handle[_with_wait_cleanup] for every handle it was granted (what DistributedTxCoordinator::commit/abort do); a wait-tracked transaction that was never granted anything is removed from the graph by the harness, because LockManager offers no call for it".into(),
+            "a transaction ends the way the repo ends one: release(tx), or release_by_handle[_with_wait_cleanup] for every handle it was granted (what DistributedTxCoordinator::commit/abort do); when no lock carries any of its handles any more (never granted, released earlier, swept, taken over) release_by_handle_with_wait_cleanup cannot know the owner, so in the LockManager-level parts the harness removes the transaction from the graph itself (counter graph_cleanup_left_to_caller) and the real caller, the coordinator, is judged on exactly this in part coord".into(),
             "in the threaded part the shadow owner mark is set after a grant returned and cleared before the release call; with the 40 ms timeout a collision only counts if the earlier holder's grant is provably younger than half the timeout".into(),
         ],
         floors,
